@@ -174,9 +174,11 @@ def fresh_on_every_call(case, first, again, max_gates=3000):
         pass
     env.uuid_counter.n = case['k0'] - 1
     second = again()
-    if second is first or ct.dump_circuit(second) != d1:
+    if second is first:
         return False, d1, second
-    return True, d1, second
+    # the second result is what the value oracle judges (a result that still carries the edits fails there);
+    # its labels need not repeat those of the first call
+    return True, ct.dump_circuit(second), second
 
 
 SHARED_STATE = 'GenerateReturnsSharedState'   # printed as an unmodelled error: the model always builds afresh
